@@ -312,5 +312,44 @@ def runSpec (dt tStart tEnd eps : K) (step : S → K → S) (u0 : S) (specs : Li
   run { dt := dt, tStart := tStart, tEnd := tEnd, eps := eps, step := step, nxt := Sched.next }
     u0 (specs.map (fun s => s.init tStart))
 
+/-! ### steppers that reach their target exactly
+
+`ScipySolver.make_stepper` (and the adaptive steppers, which shorten their last step) return
+`t_end` of the call itself.  The controller loop is the same; with a time step `dt` known to the
+controller (`ScipySolver(dt=...)`: `info["dt"]` stays `dt`) the tolerances are the same
+`1e-6*dt` and `0.5*dt`.  `flow u t s` is the state after integrating from `t` to `s`. -/
+
+def iterOnceExact (c : Cfg K S σ) (flow : S → K → K → S) (st : LState K S σ) :
+    LState K S σ × Option Exit :=
+  if st.t < c.tEnd - c.eps * c.dt then
+    let h := handleAll c.nxt (half * c.dt) st.t st.u 0 st.trs
+    match h.2.2 with
+    | some r => ({ st with trs := h.1, trace := st.trace ++ h.2.1 }, some (.stopped r))
+    | none =>
+      let s := clip (nextAction h.1) c.tEnd
+      ({ t := s, u := flow st.u st.t s, steps := st.steps + 1, trs := h.1,
+         trace := st.trace ++ h.2.1, iters := st.iters + 1 }, none)
+  else (st, some .final)
+
+def loopExact (c : Cfg K S σ) (flow : S → K → K → S) : Nat → LState K S σ → LState K S σ × Exit
+  | 0, st => (st, .fuel)
+  | fuel + 1, st =>
+    match iterOnceExact c flow st with
+    | (st', none) => loopExact c flow fuel st'
+    | (st', some e) => (st', e)
+
+/-- `Controller.run` with a stepper that reaches its target exactly (`steps` counts stepper calls) -/
+def runExactFuel (c : Cfg K S σ) (flow : S → K → K → S) (u0 : S) (trs : List (Tracker K S σ))
+    (fuel : Nat) : Result K S σ :=
+  let p := finalHandle c (loopExact c flow fuel
+    { t := c.tStart, u := u0, steps := 0, trs := trs, trace := [], iters := 0 })
+  { tFinal := p.1.t, state := p.1.u, initial := u0, steps := p.1.steps,
+    trackers := finalizeAll p.1.trs, trace := p.1.trace, exit := p.2, iters := p.1.iters }
+
+def runExactSpec (dt tStart tEnd eps : K) (flow : S → K → K → S) (u0 : S)
+    (specs : List (TrackerSpec K S)) (fuel : Nat) : Result K S (Sched K) :=
+  runExactFuel { dt := dt, tStart := tStart, tEnd := tEnd, eps := eps, step := fun u _ => u,
+                 nxt := Sched.next } flow u0 (specs.map (fun s => s.init tStart)) fuel
+
 end
 end PdeVerif.Controller
